@@ -35,8 +35,12 @@ class AnchoredTimeStamp(TimeStamp):
 
     def __deepcopy__(self, memo: Any) -> Any:
         """Deeply copy this instance to another."""
-        ts = AnchoredTimeStamp(self.year, self.month, self.day, self.hour, self.minute, self.second)
+        ts = type(self)(
+            self.year, self.month, self.day, self.hour, self.minute,
+            self.second, self.microsecond, self.tzinfo, fold=self.fold)
         ts._yaml = copy.deepcopy(self._yaml)
+        if hasattr(self, Anchor.attrib):
+            ts.yaml_set_anchor(self.anchor.value, self.anchor.always_dump)
         return ts
 
     @property
